@@ -179,3 +179,93 @@ def stream(tier):
         if " ".join(m.split()) != " ".join(i2.split()):
             res.mismatch(op, m, i2)
     return res
+
+
+# ------------------------------------------------------------------ end to end: negotiated interval reaches the writer
+def run_server_e2e(kind, ka, hint, t_init_ms, horizon_ms):
+    """A real server under the scheduler: init request (with hint) delivered at t_init, then idle. Returns [(t_ms, line)]."""
+    import lightstreamer_adapter.server as S
+    from lightstreamer_adapter.interfaces.data import DataProvider
+    from lightstreamer_adapter.interfaces.metadata import MetadataProvider
+    sched = shim.Sched(lambda names, ops: names[0])
+    sock = shim.Socket()
+    saved = shim.install(sched, sock)
+    try:
+        class D(DataProvider):
+            def initialize(self, p, c): pass
+            def set_listener(self, l): pass
+            def issnapshot_available(self, i): return True
+            def subscribe(self, i): pass
+            def unsubscribe(self, i): pass
+
+        class M(MetadataProvider):
+            pass
+        srv = (S.DataProviderServer(D(), ("p", 1), keep_alive=ka, thread_pool_size=1) if kind == "data"
+               else S.MetadataProviderServer(M(), ("p", 1), keep_alive=ka, thread_pool_size=1))
+        line = "7|%s|S|ARI.version|S|1.9.1%s\r\n" % ("DPI" if kind == "data" else "MPI",
+                                                       "" if hint is None else "|S|keepalive_hint.millis|S|" + hint)
+
+        def proxy():
+            shim.TimeShim.sleep(t_init_ms / 1000)
+            sock.inbound.append(line.encode())
+
+        def horizon():
+            shim.TimeShim.sleep((horizon_ms + 0.5) / 1000)
+        sched.spawn("A", srv.start)
+        sched.spawn("D", proxy)
+        h = sched.spawn("Z", horizon)
+        sched.run(until=lambda: h.done)
+        return [(int(round(t * 1000)), b.decode()) for t, b in sock.sent], srv.keep_alive
+    finally:
+        sched.teardown()
+        shim.uninstall(saved)
+
+
+def stream_e2e(tier):
+    """C12 + C13 end to end: configured interval x hint -> the interval the WRITER really uses afterwards."""
+    from fractions import Fraction
+    from s_keepalive import spec, fr
+    R = C.rng("sender-e2e")
+    res = Result("keepalive-end-to-end-cosim")
+    n = {"quick": 60, "search": 200, "thorough": 2500}[tier]
+    ops, impl = [], []
+    for i in range(n):
+        kind = R.choice(["data", "meta"])
+        ka = R.choice([None, 0, -1, 0.25, 0.5, 1, 2.5, 5, 12])
+        hint = R.choice([None, "0", "-5", "300", "999.5", "1000", "2500", "7000", "10000", "12000", "60000"])
+        t_init = R.choice([0, 100, 400, 1500])
+        horizon = t_init + R.choice([3000, 12000, 25000])
+        out, ka_after = run_server_e2e(kind, ka, hint, t_init, horizon)
+        res.traces += 1
+        res.evaluations += 1
+        res.nontrivial.add((kind, ka, hint, t_init, horizon))
+        cfg = None if ka is None else Fraction(ka)
+        hx_ = None if hint is None else Fraction(float(hint))
+        want_s = spec(cfg, hx_)                                   # the property's rule (seconds)
+        k0 = int((Fraction(10) if ka is None else max(Fraction(0), cfg)) * 1000)
+        keff = int(want_s * 1000)
+        M = "DPI" if kind == "data" else "MPI"
+        events = ["0:p:" + C.hx("1|RAC|S|enableClosePacket|S|true|S|SDK|S|Python+Adapter+SDK"),
+                  "%d:k:%d" % (t_init, keff), "%d:p:%s" % (t_init, C.hx("7|%s|S|ARI.version|S|1.8.3" % M))]
+        ops.append("sender f %d %d %s" % (k0, horizon, " ".join(events)))
+        impl.append("ok " + " ".join("%d:%s" % (t, C.hx(l[:-2])) for t, l in out))
+        inp = {"kind": kind, "keep_alive": ka, "hint": hint, "init_at_ms": t_init, "horizon_ms": horizon}
+        # oracle: after the init reply, consecutive writes are at most the negotiated interval apart
+        after = [t for t, l in out if t >= t_init]
+        if keff > 0:
+            times = after + [horizon]
+            for a, b in zip(times, times[1:]):
+                if b - a > keff:
+                    res.violation("e2e-keepalive-not-in-force", "interval negotiated %d ms (keep_alive=%r, hint=%r) but no write between %d and %d ms"
+                                  % (keff, ka, hint, a, b), inp)
+                    break
+        else:
+            if any(l == "KEEPALIVE\r\n" for t, l in out if t > t_init):
+                res.violation("e2e-keepalive-while-disabled", "KEEPALIVE written although keepalives are disabled (keep_alive=%r, hint=%r)" % (ka, hint), inp)
+        if i < 2:
+            res.sample(dict(inp, written=out[:6], keep_alive_after=ka_after))
+    model = C.run_driver(ops)
+    for op, m, i2 in zip(ops, model, impl):
+        if " ".join(m.split()) != " ".join(i2.split()):
+            res.mismatch(op, m[:500], i2[:500])
+    return res
